@@ -708,7 +708,22 @@ func (g *Gen) one() (Action, bool) {
 		if g.liveOf(m, slot) != nil && g.chance(0.7) {
 			return Action{}, false
 		}
+		if g.s.cfg.Profile == "C13" || g.s.cfg.Profile == "C14" {
+			return Action{Op: "send", SMF: m.Idx, Msg: g.bufEst(m, slot)}, true
+		}
 		return Action{Op: "send", SMF: m.Idx, Msg: g.estMsg(m, slot)}, true
+	case "farflip":
+		return g.farFlip()
+	case "rmpdr":
+		mm, sl, x := g.anyLive()
+		if x == nil {
+			return Action{}, false
+		}
+		pdrs := sortedRefs(x.Req, "pdr")
+		if len(pdrs) == 0 {
+			return Action{}, false
+		}
+		return Action{Op: "send", SMF: mm.Idx, Msg: &MsgIntent{T: "mod", Seq: g.seq(mm), Slot: sl, Remove: []RuleRef{{"pdr", pdrs[g.intn(len(pdrs))]}}}}, true
 	case "reest":
 		mm, sl, x := g.anyLive()
 		if x == nil {
@@ -925,5 +940,61 @@ func (g *Gen) kbuf() (Action, bool) {
 	return Action{Op: "kbuf", KBuf: k}, true
 }
 
-// special: profile-specific actions defined next to their oracles.
+// special: profile-specific actions.
 func (g *Gen) special() (Action, bool) { return Action{}, false }
+
+// bufSession: a session shaped for buffering: downlink PDRs -> FARs that buffer.
+func (g *Gen) bufEst(m *SMF, slot int) *MsgIntent {
+	g.cp++
+	in := &MsgIntent{T: "est", Seq: g.seq(m), Slot: slot, CPSEID: g.cp<<16 | uint64(m.Idx+1)}
+	nfar := 1 + g.intn(3)
+	for f := 1; f <= nfar; f++ {
+		act := uint16(pick(g.rng, 4, 12, 12, 4, 2))
+		far := RuleIntent{Kind: "far", ID: uint32(f), Action: &act, ActionLen: pick(g.rng, 1, 2)}
+		if g.chance(0.85) {
+			far.FP = &FPIntent{DestIf: u8p(0), OHC: &OHCIntent{Desc: 0x0100, TEID: uint32(g.bv(32)), IP: g.ip4()}}
+		}
+		in.Create = append(in.Create, far)
+	}
+	for q := 1; q <= 2; q++ {
+		qer := RuleIntent{Kind: "qer", ID: uint32(q), Gate: u8p(0)}
+		if g.chance(0.8) {
+			qer.QFI = u8p(uint8(g.intn(64)))
+		}
+		in.Create = append(in.Create, qer)
+	}
+	npdr := 1 + g.intn(4)
+	for p := 1; p <= npdr; p++ {
+		pdr := RuleIntent{Kind: "pdr", ID: uint32(p), Prec: u32p(uint32(100 + p)), SrcIf: u8p(1), FARID: u32p(uint32(1 + g.intn(nfar)))}
+		ip := g.ip4()
+		pdr.UEIP = &ip
+		switch g.intn(4) {
+		case 0:
+		case 1:
+			pdr.QERIDs = []uint32{1}
+		case 2:
+			pdr.QERIDs = []uint32{2, 1}
+		default:
+			pdr.QERIDs = []uint32{1, 2}
+		}
+		in.Create = append(in.Create, pdr)
+	}
+	return in
+}
+
+func (g *Gen) farFlip() (Action, bool) {
+	m, sl, x := g.anyLive()
+	if x == nil {
+		return Action{}, false
+	}
+	fars := sortedRefs(x.Req, "far")
+	if len(fars) == 0 {
+		return Action{}, false
+	}
+	act := uint16(pick(g.rng, 2, 2, 2, 1, 4, 12, 6, 3, 10))
+	far := RuleIntent{Kind: "far", ID: fars[g.intn(len(fars))], Action: &act, ActionLen: pick(g.rng, 1, 2)}
+	if g.chance(0.4) {
+		far.FP = &FPIntent{DestIf: u8p(0), OHC: &OHCIntent{Desc: 0x0100, TEID: uint32(g.bv(32)), IP: g.ip4()}}
+	}
+	return Action{Op: "send", SMF: m.Idx, Msg: &MsgIntent{T: "mod", Seq: g.seq(m), Slot: sl, Update: []RuleIntent{far}}}, true
+}
